@@ -250,3 +250,72 @@ func TestEnumDepth(t *testing.T) {
 	}
 	st.SetExhaustive("nesting depths 240..256 x 7 array/dict patterns x 5 innermost values x {plain, pretty}")
 }
+
+// TestEnumWide formats and parses values which are wide instead of deep:
+// hundreds of sibling containers inside one array or dictionary, and hundreds
+// of values formatted one after another for one scanner.  The scanner's depth
+// limit counts containers that are open at the same time; siblings must not
+// add up.
+func TestEnumWide(t *testing.T) {
+	st := vt.NewStats(property, "enum-wide")
+	elems := []gen.O{
+		{T: "arr"},
+		{T: "arr", A: []gen.O{{T: "int", I: 1}}},
+		{T: "dict"},
+		{T: "dict", D: []gen.KV{{K: gen.Hex("K"), V: gen.O{T: "arr", A: []gen.O{{T: "name", S: gen.Hex("N")}}}}}},
+		{T: "arr", A: []gen.O{{T: "arr", A: []gen.O{{T: "dict"}}}}},
+	}
+	widths := []int{2, 64, 254, 255, 256, 257, 300, 1000}
+	if vt.Thorough() {
+		widths = append(widths, 511, 512, 513, 4096, 20000)
+	}
+	n := 0
+	for _, w := range widths {
+		for ei, el := range elems {
+			for shape := 0; shape < 4; shape++ {
+				for _, opt := range []int{0, 1} {
+					var objs []gen.O
+					switch shape {
+					case 0: // one array of w containers
+						a := make([]gen.O, w)
+						for i := range a {
+							a[i] = el
+						}
+						objs = []gen.O{{T: "arr", A: a}}
+					case 1: // one dictionary with w container values
+						d := make([]gen.KV, w)
+						for i := range d {
+							d[i] = gen.KV{K: gen.Hex(fmt.Sprintf("K%d", i)), V: el}
+						}
+						objs = []gen.O{{T: "dict", D: d}}
+					case 2: // w values one after another
+						objs = make([]gen.O, w)
+						for i := range objs {
+							objs[i] = el
+						}
+					case 3: // the wide array two levels down
+						a := make([]gen.O, w)
+						for i := range a {
+							a[i] = el
+						}
+						objs = []gen.O{{T: "dict", D: []gen.KV{{K: gen.Hex("W"), V: gen.O{T: "arr", A: []gen.O{{T: "arr", A: a}}}}}}}
+					}
+					c := Case{Opt: opt, Objs: objs, InFile: shape != 2 || w <= 300, StrictNilDict: true}
+					err := vt.Guard(func() error { return checkCase(&c) })
+					n++
+					st.Eval(vt.HashBytes([]byte{byte(w), byte(w >> 8), byte(w >> 16), byte(ei), byte(shape), byte(opt)}), w >= 256,
+						fmt.Sprintf("shape%d", shape), map[bool]string{true: "siblings>=256", false: "siblings<256"}[w >= 256])
+					if n%23 == 0 {
+						st.Sample(func() any { return map[string]any{"siblings": w, "element": ei, "shape": shape, "opt": opt} })
+					}
+					if err != nil {
+						small := Case{Opt: opt, Objs: objs, InFile: c.InFile, StrictNilDict: true}
+						vt.Violation(property, "c01-adjacency", &small, err.Error())
+						t.Fatalf("%d siblings, element %d, shape %d: %v", w, ei, shape, err)
+					}
+				}
+			}
+		}
+	}
+	st.SetExhaustive(fmt.Sprintf("%d widths x %d container elements x {array, dict values, sequence, nested array} x {plain, pretty}", len(widths), len(elems)))
+}
